@@ -347,6 +347,10 @@ class Resolver:
 
     def _instance_rebinds(self, cls: ClassInfo, name: str) -> bool:
         for klass in self.mro(cls):
+            # a field of a dataclass / NamedTuple: the class-level value is only the default of an instance attribute
+            is_record = any(ast.unparse(d).split("(")[0].split(".")[-1] == "dataclass" for d in getattr(klass.node, "decorator_list", [])) or any(ast.unparse(b).split(".")[-1] == "NamedTuple" for b in klass.node.bases)
+            if is_record and any(isinstance(st, ast.AnnAssign) and isinstance(st.target, ast.Name) and st.target.id == name for st in klass.node.body):
+                return True
             for meth in klass.methods.values():
                 for n in ast.walk(meth.node):
                     if isinstance(n, ast.Attribute) and n.attr == name and isinstance(n.ctx, (ast.Store, ast.Del)):
